@@ -10,7 +10,7 @@ from . import facts as F
 VERIF = F.VERIF
 KNOWN = os.path.join(VERIF, "known_findings.txt")
 # runs against a scratch copy (selftest) must not overwrite the evidence of /repo
-EVDIR = os.path.join(VERIF, "evidence") if not os.environ.get("SQV_REPO") else os.path.join(VERIF, ".work", "evidence-scratch")
+EVDIR = os.path.join(VERIF, "evidence") if not (os.environ.get("SQV_REPO") or os.environ.get("SQV_SCRATCH_EVIDENCE")) else os.path.join(VERIF, ".work", "evidence-scratch")
 
 
 class Anchor(Exception):
